@@ -309,7 +309,8 @@ def _run_rotation(case):
             if day != case['start']:
                 with open(os.path.join(sub, _fname(root, day)), 'w') as f:
                     f.write('old\n')
-        foreign = {'before': '0-before.txt', 'after': 'zz-after.txt'}
+        foreign = {'before': '0-before.txt', 'after': 'zz-after.txt', 'ext': _fname(root, 1)[:-4] + '.txt',
+                   'prefix': _fname(root + 'x', 1)}
         for pos in case['foreign']:
             with open(os.path.join(sub, foreign[pos]), 'w') as f:
                 f.write('x\n')
@@ -467,7 +468,7 @@ def run(chk):
         start = rnd.randint(2, 12)
         c = {'n': rnd.randint(0, 6), 'start': start,
              'days': sorted(set(rnd.sample(range(1, start), rnd.randint(0, start - 1))) | {start}),
-             'foreign': sorted(rnd.sample(['before', 'after'], rnd.randint(0, 2))),
+             'foreign': sorted(rnd.sample(['before', 'after', 'ext', 'prefix'], rnd.randint(0, 4))),
              'steps': [rnd.randint(1, 3) for _ in range(rnd.randint(1, 4))]}
         cases[json.dumps(c, sort_keys=True)] = c
     cases = list(cases.values())
